@@ -73,6 +73,33 @@ def run(chk):
                 stats["distinct_nontrivial"] += 1
         if why:
             fails.append(({"script": t}, {"parseErrors": errs}, None, why[:3], site))
+    # correspondence of the display model (Model/Show.lean) with Range.ShowOnSource: random ranges,
+    # displayable or not, over sources with non-ASCII lines, CR/LF, empty lines
+    from runner import enc, dec
+    srcs = [t for t in texts[:40] if t] + ["a\nbb\n\nccc", "é🙂\nx", "one line", "\n\n", "tab\there\r\nnext"]
+    show_cases, show_lines = [], []
+    for sidx, src in enumerate(srcs):
+        nl = src.count("\n") + 1
+        for _ in range(12 if chk.tier == "quick" else 120):
+            l1 = rng.randrange(0, nl + 1)
+            l2 = rng.choice([l1, l1, rng.randrange(0, nl + 2)])
+            c1, c2 = rng.randrange(0, 12), rng.randrange(0, 14)
+            i = len(show_cases)
+            show_cases.append({"id": i, "op": "show", "script": src, "positions": [[l1, c1], [l2, c2]]})
+            show_lines.append("show\t%d\t%s\t%d:%d-%d:%d" % (i, enc(src), l1, c1, l2, c2))
+    sg = runner.run_go(show_cases)
+    sl = runner.run_lean(show_lines)
+    show_dis = []
+    for c, g, l in zip(show_cases, sg, sl):
+        f = l.split("\t")
+        stats["model_comparisons"] = stats.get("model_comparisons", 0) + 1
+        if "panic" in g:
+            if f[1] != "panic":
+                show_dis.append((c, g, {"model": l[:200]}, ["ShowOnSource panics, the model does not"]))
+        elif f[1] != "ok" or dec(f[2]) != g.get("out"):
+            show_dis.append((c, g, {"model": l[:300]}, ["ShowOnSource output differs from the model"]))
+    stats["show_comparisons"] = len(show_cases)
+    stats["model_disagreements"] = len(show_dis)
     unknown = [f for f in fails if not f[4]]
     known = [f for f in fails if f[4]]
     for c, go, m, why, site in unknown[:10] + known[:3]:
@@ -80,6 +107,9 @@ def run(chk):
     if not [f for f in fails if True] or all(f[4] for f in fails):
         for t in broken:
             chk.violation("theorem:%s no longer checks" % t, found_input=False, site="theorem:" + t)
+    if not unknown:
+        for c, go, m, why in show_dis[:3]:
+            chk.violation("correspondence:display model and implementation differ: %s" % why, case=c, go=go, model=m, found_input=False)
     stats["oracle_failures"] = len([f for f in fails if not f[4]])
     chk.coverage.update(stats)
     chk.coverage["rule"] = ("generated valid scripts, every prefix (subset), token deletion/duplication/insertion/replacement, bracket removal, inserted non-ASCII and control "
